@@ -97,26 +97,60 @@ def run_verus_unit(res, unit_name, src_root, allow):
         return
     main_p = os.path.join(gen_dir, unit_name + '.rs')
     twin_p = os.path.join(gen_dir, unit_name + '_vacuity.rs')
-    open(main_p, 'w').write(u.generated)
-    open(twin_p, 'w').write(u.twins)
-    # trusted-base scan against allow-list
     allowed = set(allow.get(unit_name, []))
-    unexpected = [t for t in u.trusted if strip_line(t) not in allowed]
-    info['trusted'] = u.trusted
+    demote_reasons = {}
+    for attempt in range(8):
+        open(main_p, 'w').write(u.generated)
+        open(twin_p, 'w').write(u.twins)
+        # trusted-base scan against allow-list (demoted functions are reported separately, not as allowed assumptions)
+        unexpected = [t for t in u.trusted if strip_line(t) not in allowed
+                      and not any(strip_line(t) == 'external_body fn ' + d.split('::')[-1] for d in u.demote)]
+        info['trusted'] = u.trusted
+        if unexpected:
+            info['status'] = 'undecided'
+            res.undecided.append('unit %s: assumption(s) not on the committed allow-list: %s' % (unit_name, '; '.join(unexpected)))
+            return
+        with cf.ThreadPoolExecutor(2) as ex:
+            f_main = ex.submit(VU.run_verus, main_p)
+            f_twin = ex.submit(VU.run_verus, twin_p)
+            r_main, r_twin = f_main.result(), f_twin.result()
+        # a compile / unsupported-construct error inside the BODY of an extracted function: demote that function and retry
+        newly = None
+        for d in r_main['diags']:
+            if VU.classify_diag(d) != 'other-error':
+                continue
+            for sp in d.get('spans', []):
+                coff = len(u.generated.encode()[:sp.get('byte_start', 0)].decode(errors='ignore'))
+                label, kind = u.region_of(coff)
+                if label and kind == 'body' and label not in u.demote:
+                    newly = (label, d.get('message', '')[:200])
+                    break
+            if newly:
+                break
+        if not newly:
+            break
+        u.demote.add(newly[0])
+        demote_reasons[newly[0]] = newly[1]
+        try:
+            u.generate()
+        except (ExtractError, LexError) as e:
+            info['status'] = 'undecided'
+            res.undecided.append('unit %s: %s' % (unit_name, str(e).split('\n')[0]))
+            return
     res.trusted += ['%s: %s' % (unit_name, t) for t in u.trusted]
-    if unexpected:
-        info['status'] = 'undecided'
-        res.undecided.append('unit %s: assumption(s) not on the committed allow-list: %s' % (unit_name, '; '.join(unexpected)))
-        return
-    with cf.ThreadPoolExecutor(2) as ex:
-        f_main = ex.submit(VU.run_verus, main_p)
-        f_twin = ex.submit(VU.run_verus, twin_p)
-        r_main, r_twin = f_main.result(), f_twin.result()
     res.checker_cmds.append(r_main['cmd'])
     # ---- main run
     verdict_main(res, info, u, r_main, main_p)
     # ---- twins
     verdict_twins(res, info, u, r_twin)
+    # ---- demoted functions -> bounded stand-in (witness harness); a violation needs a concrete failing input
+    for dfn in sorted(u.demote):
+        info.setdefault('demoted', []).append(dict(fn=dfn, reason=demote_reasons.get(dfn)))
+        res.violations.append(dict(unit=u.name, fn=dfn, clause='', obligation='%s/%s :: contract of a function whose body Verus can no longer read (%s) - bounded stand-in' % (u.name, dfn, demote_reasons.get(dfn, '')[:120]),
+                                   reason='function outside the verifier\'s reach on this tree; bounded executable contract check used as stand-in', where='', rendered=demote_reasons.get(dfn, ''),
+                                   tentative=True, anchors_lost=['body of %s unreadable: %s' % (dfn, demote_reasons.get(dfn, '')[:160])], bounded=True))
+        if info['status'] == 'pass':
+            info['status'] = 'undecided-demoted'
     for f in u.functions:
         ff = dict(f)
         ff['back_end'] = 'verus/z3'
